@@ -58,4 +58,20 @@ var ReaderVariants = []ReaderVariant{
 	{"one-byte-reads", func(b []byte) io.Reader { return oneByte{bytes.NewReader(b)} }},
 	{"half-reads", func(b []byte) io.Reader { return halfRead{bytes.NewReader(b)} }},
 	{"data-with-EOF", func(b []byte) io.Reader { return &dataWithEOF{b: b} }},
+	{"bytes.Reader-behind-7-consumed-bytes", func(b []byte) io.Reader { return Positioned(b, 7) }},
+	{"bytes.Reader-behind-64-consumed-bytes", func(b []byte) io.Reader { return Positioned(b, 64) }},
+}
+
+// Positioned: a seekable reader that has already been read up to where the data starts (a file
+// inside a container, a stream behind a header): a decoder reads from the current position on.
+func Positioned(data []byte, prefix int) io.Reader {
+	junk := make([]byte, prefix)
+	for i := range junk {
+		junk[i] = byte(0xA5 ^ i)
+	}
+	r := bytes.NewReader(append(junk, data...))
+	if _, err := r.Seek(int64(prefix), io.SeekStart); err != nil {
+		panic(err)
+	}
+	return r
 }
